@@ -25,6 +25,9 @@ structure Cover where
   hashes : List String
   /-- the model and theorem, or the written argument -/
   how : String
+  /-- "lean" = a Lean model with a proved iteration bound in this file; "prose" = only the written argument in
+      `how` (nothing is proved about it); "defer" = owned by another property's model (C02 / C29 / C33), any hash -/
+  cls : String
 
 def DEXF := "androguard/core/dex/__init__.py"
 def AXMLF := "androguard/core/axml/__init__.py"
@@ -32,49 +35,49 @@ def APKF := "androguard/core/apk/__init__.py"
 
 def coverage : List Cover := [
   ⟨DEXF, "read_null_terminated_string", "while#0", ["fe1f0711431ddfe8"],
-    "Mutf8.ntLoop (measure |file| - pos); readNT_steps_le, readNT_eof_raises; hash of the FIXED loop only"⟩,
+    "Mutf8.ntLoop (measure |file| - pos); readNT_steps_le, readNT_eof_raises; hash of the FIXED loop only", "lean"⟩,
   ⟨DEXF, "writeuleb128", "while#0", ["f8b7dbe196387098"],
-    "writer, not on a parse path; `remaining >>= 7` strictly decreases a positive integer (C03 Leb.writeUlebNat terminates by that measure)"⟩,
+    "writer, not on a parse path; `remaining >>= 7` strictly decreases a positive integer (C03 Leb.writeUlebNat terminates by that measure)", "prose"⟩,
   ⟨DEXF, "writesleb128", "while#0", ["acf809f28c046eaf"],
-    "writer, not on a parse path (get_raw only); C03 models it with fuel and records that values >= 2^63 do not terminate"⟩,
+    "writer, not on a parse path (get_raw only); C03 models it with fuel and records that values >= 2^63 do not terminate", "prose"⟩,
   ⟨DEXF, "HiddenApiClassDataItem.__init__", "while#0", ["9298d74f9efad781"],
-    "Loops.hiddenLoop; hidden_api_steps_le (4 bytes per iteration or struct.error)"⟩,
+    "Loops.hiddenLoop; hidden_api_steps_le (4 bytes per iteration or struct.error)", "lean"⟩,
   ⟨DEXF, "DebugInfoItem.__init__", "while#0", ["3e6a9b15a1abd259"],
-    "Loops.dbgLoop; debug_info_steps_le (>= 1 byte per iteration or struct.error)"⟩,
+    "Loops.dbgLoop; debug_info_steps_le (>= 1 byte per iteration or struct.error)", "lean"⟩,
   ⟨DEXF, "EncodedMethod.get_information", "while#0", ["bca3a905c62fbd55"],
-    "not a parser loop: `i += param_sizes[j]` with sizes in {1,2} until `i >= nb`; IndexError if params run out"⟩,
+    "not a parser loop: `i += param_sizes[j]` with sizes in {1,2} until `i >= nb`; IndexError if params run out", "prose"⟩,
   ⟨DEXF, "EncodedMethod.get_short_string._fmt_classname", "while#0", ["ca7f4d9b82e5154d"],
-    "not a parser loop: `cls = cls[1:]` strictly shortens a finite string"⟩,
+    "not a parser loop: `cls = cls[1:]` strictly shortens a finite string", "prose"⟩,
   ⟨DEXF, "LinearSweepAlgorithm.get_instructions", "while#0", [],
-    "C02: sweep model, `idx += obj.get_length()` with length >= 2 (AgVerif.C02)"⟩,
+    "C02: sweep model, `idx += obj.get_length()` with length >= 2 (AgVerif.C02)", "defer"⟩,
   ⟨DEXF, "DEX.list_classes_hierarchy.print_map", "rec", ["46296a422e439201"],
-    "not a parser path (explicit API call on a parsed DEX): recursion over the children of a tree built from the finite class list; a cyclic hierarchy ends in RecursionError"⟩,
+    "not a parser path (explicit API call on a parsed DEX): recursion over the children of a tree built from the finite class list; a cyclic hierarchy ends in RecursionError", "prose"⟩,
   ⟨DEXF, "get_type", "rec", ["aff79c8e7dce6bf0"],
-    "recursion on `atype[1:]`, a strictly shorter string; depth <= len(descriptor)"⟩,
+    "recursion on `atype[1:]`, a strictly shorter string; depth <= len(descriptor)", "prose"⟩,
   ⟨AXMLF, "AXMLParser._do_next", "while#0", ["212d22307ea023c1"],
-    "Loops.doNext; axml_do_next_steps_le, axml_do_next_never_stuck (chunk start advances >= 8 bytes per iteration)"⟩,
+    "Loops.doNext; axml_do_next_steps_le, axml_do_next_never_stuck (chunk start advances >= 8 bytes per iteration)", "lean"⟩,
   ⟨AXMLF, "AXMLPrinter.__init__", "while#0", ["1ac88210f1960e18", "a9821b4b607d5949"],
-    "one `next(self.axml)` = one `_do_next` call per iteration: each advances the chunk start by >= 8 bytes, sets END_DOCUMENT (break), invalidates the parser (loop test) or raises; at most |file|/8 + 2 iterations (second hash: with fixes/C26-text-chunks.diff)"⟩,
+    "Loops.axmlDoc; axml_parse_steps_linear. one `next(self.axml)` = one `_do_next` call per iteration: each advances the chunk start by >= 8 bytes, sets END_DOCUMENT (break), invalidates the parser (loop test) or raises; at most |file|/8 + 2 iterations (second hash: with fixes/C26-text-chunks.diff)", "lean"⟩,
   ⟨AXMLF, "ARSCParser.__init__", "while#0", ["f6823ec3eb5dcff3"],
-    "Loops.arscChunks (outer); arsc_chunks_steps_le"⟩,
+    "Loops.arscParse (outer loop with the inner loops composed); arsc_parse_steps_linear, arsc_chunks_steps_le", "lean"⟩,
   ⟨AXMLF, "ARSCParser.__init__", "while#1", ["06b9141acb1f7833"],
-    "Loops.arscChunks with the package chunk's end as bound (inner); arsc_chunks_steps_le"⟩,
+    "Loops.arscChunks with the package chunk's end as bound (inner); arsc_chunks_steps_le", "lean"⟩,
   ⟨AXMLF, "ARSCParser._analyse", "while#0", ["84b25dad7dbc70a2"],
-    "no input is read: `nb` increases by at least 1 per iteration and is bounded by len(self.packages[name]), a list built by the terminated parse"⟩,
+    "no input is read: `nb` increases by at least 1 per iteration and is bounded by len(self.packages[name]), a list built by the terminated parse", "prose"⟩,
   ⟨AXMLF, "ARSCHeader.__init__", "while#0", ["37206441c8b6d781"],
-    "Loops.hdrSkip (measure |file| - cur); arsc_header_steps_le"⟩,
-  ⟨AXMLF, "ARSCParser.ResourceResolver._resolve_into_result", "rec", [], "C29: Resolve model, visited set (AgVerif.C29.resolveV_terminates)"⟩,
-  ⟨AXMLF, "ARSCParser.ResourceResolver.put_ate_value", "rec", [], "C29"⟩,
-  ⟨AXMLF, "ARSCParser.ResourceResolver.put_item_value", "rec", [], "C29"⟩,
-  ⟨APKF, "APK.parse_signatures_or_digests", "while#0", [], "C33: SigBlock.parseSeqF, >= 8 bytes per iteration or struct.error"⟩,
-  ⟨APKF, "APK.parse_v2_v3_signature", "while#0", [], "C33: SigBlock.scanEocd, position decreases by 1 per iteration down to 0"⟩,
-  ⟨APKF, "APK.parse_v2_v3_signature", "while#1", [], "C33: SigBlock.walkF, 12 bytes per iteration or struct.error"⟩,
-  ⟨APKF, "APK.parse_v3_signing_block", "while#0", [], "C33: SigBlock.parseSignersF, >= 4 bytes per iteration or struct.error"⟩,
-  ⟨APKF, "APK.parse_v3_signing_block", "while#1", [], "C33: SigBlock.parseCertsF, >= 4 bytes per iteration or struct.error"⟩,
-  ⟨APKF, "APK.parse_v2_signing_block", "while#0", [], "C33: SigBlock.parseSignersF"⟩,
-  ⟨APKF, "APK.parse_v2_signing_block", "while#1", [], "C33: SigBlock.parseCertsF"⟩,
+    "Loops.hdrSkip (measure |file| - cur); arsc_header_steps_le", "lean"⟩,
+  ⟨AXMLF, "ARSCParser.ResourceResolver._resolve_into_result", "rec", [], "C29: Resolve model, visited set (AgVerif.C29.resolveV_terminates)", "defer"⟩,
+  ⟨AXMLF, "ARSCParser.ResourceResolver.put_ate_value", "rec", [], "C29", "defer"⟩,
+  ⟨AXMLF, "ARSCParser.ResourceResolver.put_item_value", "rec", [], "C29", "defer"⟩,
+  ⟨APKF, "APK.parse_signatures_or_digests", "while#0", [], "C33: SigBlock.parseSeqF, >= 8 bytes per iteration or struct.error", "defer"⟩,
+  ⟨APKF, "APK.parse_v2_v3_signature", "while#0", [], "C33: SigBlock.scanEocd, position decreases by 1 per iteration down to 0", "defer"⟩,
+  ⟨APKF, "APK.parse_v2_v3_signature", "while#1", [], "C33: SigBlock.walkF, 12 bytes per iteration or struct.error", "defer"⟩,
+  ⟨APKF, "APK.parse_v3_signing_block", "while#0", [], "C33: SigBlock.parseSignersF, >= 4 bytes per iteration or struct.error", "defer"⟩,
+  ⟨APKF, "APK.parse_v3_signing_block", "while#1", [], "C33: SigBlock.parseCertsF, >= 4 bytes per iteration or struct.error", "defer"⟩,
+  ⟨APKF, "APK.parse_v2_signing_block", "while#0", [], "C33: SigBlock.parseSignersF", "defer"⟩,
+  ⟨APKF, "APK.parse_v2_signing_block", "while#1", [], "C33: SigBlock.parseCertsF", "defer"⟩,
   ⟨APKF, "get_apkid", "while#0", ["71a3b9386a42cc6a"],
-    "same shape as AXMLPrinter.__init__: one `_do_next` per iteration; leaves by `break`, RuntimeError or an invalid parser"⟩
+    "Loops.axmlDoc; axml_parse_steps_linear. same shape as AXMLPrinter.__init__: one `_do_next` per iteration; leaves by `break`, RuntimeError or an invalid parser", "lean"⟩
 ]
 
 def covers (c : Cover) (l : String × String × String × String) : Bool :=
@@ -84,6 +87,16 @@ def covers (c : Cover) (l : String × String × String × String) : Bool :=
     parser modules of the working tree is an entry of `coverage` (same file, function, kind, and — for
     the loops this property owns — the same normalised-AST hash). -/
 theorem loops_covered : ∀ l ∈ loops, coverage.any (covers · l) = true := by decide +kernel
+
+/-- **What the inventory theorem does and does not carry.** Of the coverage entries, exactly these are backed
+    by a Lean model with a proved bound ("lean"), rest on a written argument only ("prose"), or are owned by
+    another property ("defer": LinearSweep → C02, resource resolution → C29, signing block / EOCD → C33). -/
+theorem coverage_classes :
+    (coverage.filter (·.cls == "lean")).length = 9 ∧
+    (coverage.filter (·.cls == "prose")).length = 7 ∧
+    (coverage.filter (·.cls == "defer")).length = 11 ∧
+    coverage.length = 27 ∧
+    (∀ c ∈ coverage, c.cls == "defer" ↔ c.hashes.isEmpty) := by decide +kernel
 
 /-- count loops whose body does not itself read from the buffer, with the reason they are bounded -/
 def countLoopExempt : List (String × String × String) := [
@@ -172,6 +185,28 @@ theorem arsc_chunks_steps_le (f : List Nat) (outerEnd : Nat) (parse : Hdr → Bo
       (fun p st q st' _ h => arscOuterBody_progress f outerEnd parse p q st' h)
       (f.length + 1 - pos) pos () 0 (Nat.le_refl _)
     simpa [arscChunks] using this
+
+/-- **AXML, whole document.** All `_do_next` calls that `AXMLPrinter.__init__` / `get_apkid` can make on a
+    document — every event, every chunk-loop iteration of every call, nested ARSCHeader constructions counted
+    once per iteration — composed: the sequence of calls never gets stuck (each tag / text event leaves the
+    position at least 8 bytes further) and `8 · (total iterations) ≤ (bytes after the start position) + 16`,
+    i.e. at most |input|/8 + 2 iterations for any file, any declared file size, any start position.
+    (Each iteration additionally runs one ARSCHeader dummy-data scan, bounded by `arsc_header_steps_le`.) -/
+theorem axml_parse_steps_linear (f : List Nat) (filesize pos : Nat) :
+    (axmlDoc f filesize pos 0).2 = false ∧ 8 * (axmlDoc f filesize pos 0).1 ≤ (f.length - pos) + 16 := by
+  have := axmlDoc_bound f filesize (f.length - pos) pos 0 (Nat.le_refl _)
+  simpa using this
+
+/-- **ARSC, whole table.** The outer chunk loop of `ARSCParser.__init__` with the inner chunk loop of every
+    package chunk composed (inner loop from `next_idx = start + header_size + extra` to the package chunk's
+    end), for every behaviour of the per-chunk work (`parse`, `parseIn` raise or not) and every `extra`:
+    no loop is stuck and `8 · (outer + all inner iterations) ≤ 2 · (header.end − start position) + 16`.
+    `header.end ≤ |file|` is enforced by the parser before the loop ("file seems to be truncated"). -/
+theorem arsc_parse_steps_linear (f : List Nat) (outerEnd : Nat) (parse parseIn : Hdr → Bool)
+    (extra : Hdr → Nat) (pos : Nat) :
+    (arscParse f outerEnd parse parseIn extra pos).2 = false ∧
+    8 * (arscParse f outerEnd parse parseIn extra pos).1 ≤ 2 * (outerEnd - pos) + 16 :=
+  arscParse_bound f outerEnd parse parseIn extra pos
 
 /-- DebugInfoItem: at least one byte per iteration -/
 theorem debug_info_steps_le (f : List Nat) (pos op : Nat) :
